@@ -465,6 +465,17 @@ fn insert_at(s: &str, r: &mut Rng, c: char) -> String {
 
 const BASES: &[u64] = &[2, 3, 7, 8, 10, 16, 36, 64, 255, 256, 10_000_000_000_000_000_000, 1 << 32, 1 << 63, u64::MAX, (1 << 60)];
 
+/// Powers of ten, powers of two and their neighbours around the 8/16/24/32/48-bit marks, and a few other
+/// bases people use for chunked output (seconds, 10^9 chunks, base 58/62/85).
+const NATURAL_BASES: &[u64] = &[
+    100, 1_000, 10_000, 100_000, 1_000_000, 10_000_000, 100_000_000, 1_000_000_000, 10_000_000_000,
+    100_000_000_000, 1_000_000_000_000, 10_000_000_000_000, 100_000_000_000_000, 1_000_000_000_000_000,
+    10_000_000_000_000_000, 100_000_000_000_000_000, 1_000_000_000_000_000_000,
+    58, 60, 62, 85, 127, 128, 129, 257, 3600, 65_535, 65_536, 65_537, 86_400, (1 << 24) - 1, 1 << 24, (1 << 24) + 1,
+    (1 << 31) - 1, 1 << 31, (1 << 31) + 1, (1 << 32) - 1, (1 << 32) + 1, 3_000_000_000, 4_000_000_000, (1 << 33) - 1,
+    (1 << 48) - 1, (1 << 48) + 1, (1 << 62) + 1, (1 << 63) - 1, (1 << 63) + 1, u64::MAX - 1,
+];
+
 fn workload(m: &mut Mon, bits: usize) {
     let mut r = m.stream("c09.values", bits);
     let mut values = gen::boundary(bits);
@@ -501,12 +512,38 @@ fn workload(m: &mut Mon, bits: usize) {
         }
         let rb = 2 + r.u64() % (u64::MAX - 2);
         m.case("to_base", bits, vec![au(v), Arg::N(rb.into())]);
+        // bases of every magnitude: a uniform u64 is almost never below 2^60, and a digit spigot may
+        // treat "fits 16 / 32 bits" differently from the rest
+        for _ in 0..3 {
+            let bl = r.range(2, 64);
+            let sb = ((1u64 << (bl - 1)) | (r.u64() & ((1u64 << (bl - 1)) - 1))).max(2);
+            m.case("to_base", bits, vec![au(v), Arg::N(sb.into())]);
+        }
+        let nb = NATURAL_BASES[r.below(NATURAL_BASES.len())];
+        m.case("to_base", bits, vec![au(v), Arg::N(nb.into())]);
+    }
+    // dense sweep of the bases a user is likely to pick (powers of ten, 2^k and 2^k +- 1) over uniform and
+    // hostile values: an error band of a few percent of the values of one base must not slip through
+    for &nb in NATURAL_BASES {
+        for i in 0..m.iters(12) {
+            if !m.keep() {
+                continue;
+            }
+            let v = if i % 2 == 0 { gen::uniform(&mut r, bits) } else { gen::hostile(&mut r, bits) };
+            m.case("to_base", bits, vec![au(&v), Arg::N(nb.into())]);
+        }
     }
     m.case("to_base", bits, vec![au(&gen::max(bits)), Arg::N(0)]);
     m.case("to_base", bits, vec![au(&gen::max(bits)), Arg::N(1)]);
     // ---- from_base with faults: overflow by one unit / one digit, bad digit, bad base
     let lim = big::p2(bits);
-    for &b in BASES {
+    let mut fb: Vec<u64> = BASES.to_vec();
+    for k in 0..6 {
+        fb.push(NATURAL_BASES[(bits + 7 * k) % NATURAL_BASES.len()]);
+        let bl = r.range(2, 64);
+        fb.push(((1u64 << (bl - 1)) | (r.u64() & ((1u64 << (bl - 1)) - 1))).max(2));
+    }
+    for &b in &fb {
         if !m.keep() {
             continue;
         }
